@@ -130,7 +130,13 @@ def _apply(w, op):
     if k == "int":
         return w.add_int(op[1])
     if k == "bytes":
-        return w.add_bytes(bytes.fromhex(op[1]))
+        buf = bytearray.fromhex(op[1])   # lent for the call only, scribbled over afterwards
+        try:
+            return w.add_bytes(buf)
+        finally:
+            for i in range(len(buf)):
+                buf[i] ^= 0x5A
+            buf.extend(b"\xff\x00\xfe")
     if k == "string":
         return w.add_string(op[1])
     if k == "estring":
